@@ -819,12 +819,12 @@ func main() {
 		exhaustive(c, n, pipes, []int{0, 1})
 	}
 	if c.Thorough() {
-		exhaustive(c, 5, pipes[:2], []int{0, 2})
+		exhaustive(c, 5, pipes, []int{0, 1, 2})
 	}
 	// no commits at all: Run panics on plan[0]
 	emit(c, caseIn{Kind: "empty", Dist: 0, Items: fixedPipeline(0, c), Inj: injection{Kind: "none"}})
 	// linear histories
-	for i := c.Count(200, 1000); i > 0; i-- {
+	for i := c.Count(200, 3000); i > 0; i-- {
 		n := 1 + c.Rng.Intn(8)
 		ts := randomTimes(c, n)
 		cs := make([]commitSpec, n)
@@ -839,14 +839,14 @@ func main() {
 		emit(c, caseIn{Kind: "lin", Dist: d, Items: its, Inj: pickInjection(c, its, n, d), Commits: cs})
 	}
 	// random DAGs with merges, octopus merges and several roots
-	for i := c.Count(2500, 20000); i > 0; i-- {
+	for i := c.Count(2500, 60000); i > 0; i-- {
 		cs := randomDag(c, 14)
 		its := pickPipeline(c)
 		d := []int{0, 0, 1, 1, 2, 3, 5}[c.Rng.Intn(7)]
 		emit(c, caseIn{Kind: "dag", Dist: d, Items: its, Inj: pickInjection(c, its, len(cs), d), Commits: cs})
 	}
 	// the conflict-free histories of harness/synth (the generator of the burndown checks)
-	for i := c.Count(900, 8000); i > 0; i-- {
+	for i := c.Count(900, 24000); i > 0; i-- {
 		h := synth.GenHist(c.Rng, synth.GenOpts{MaxCommits: 12, SingleHead: c.Rng.Intn(2) == 0})
 		cs := fromHist(c, h)
 		its := pickPipeline(c)
